@@ -131,6 +131,9 @@ type Cluster struct {
 	// Java exception class to answer with, "" to execute, or "DROP" to cut the connection without answering.
 	// It is called with the cluster lock held and must not call back into the cluster.
 	ActionHook func(rs *RS, r *Region, op string, row []byte) string
+	// Mangle, if set, may rewrite a response (message and cellblock) just before it is sent: the means to make an otherwise
+	// healthy server answer one request with something malformed.
+	Mangle func(rs *RS, req *Request, resp *Response)
 	// MetaMode: "" normal, "silent" (meta scans are never answered), "empty" (meta knows no region)
 	MetaMode string
 	Execs    []Exec
@@ -578,7 +581,7 @@ func (c *Cluster) serve(rs *RS, sc *ServerConn, req *Request, name []byte) {
 		var cb []byte
 		msg := &pb.GetResponse{Result: c.resultMsg(res, p.GetGet().GetExistenceOnly(), &cb)}
 		c.Trace.Emit("resp", "conn", sc.ID, "id", int(req.CallID), "exc", "")
-		sc.Send(Response{CallID: req.CallID, Msg: msg, CellBlock: cb})
+		c.send(sc, req, Response{CallID: req.CallID, Msg: msg, CellBlock: cb})
 	case *pb.MutateRequest:
 		c.mu.Lock()
 		r, prob := c.regionProblemLocked(rs, name)
@@ -605,7 +608,7 @@ func (c *Cluster) serve(rs *RS, sc *ServerConn, req *Request, name []byte) {
 			msg.Result = c.resultMsg(res, false, &cb)
 		}
 		c.Trace.Emit("resp", "conn", sc.ID, "id", int(req.CallID), "exc", "")
-		sc.Send(Response{CallID: req.CallID, Msg: msg, CellBlock: cb})
+		c.send(sc, req, Response{CallID: req.CallID, Msg: msg, CellBlock: cb})
 	case *pb.MultiRequest:
 		c.serveMulti(rs, sc, req, p)
 	case *pb.ScanRequest:
@@ -613,6 +616,16 @@ func (c *Cluster) serve(rs *RS, sc *ServerConn, req *Request, name []byte) {
 	default:
 		c.sendExc(sc, req, ExcDoNotRetry)
 	}
+}
+
+func (c *Cluster) send(sc *ServerConn, req *Request, resp Response) {
+	c.mu.Lock()
+	m, rs := c.Mangle, c.Servers[sc.Addr]
+	c.mu.Unlock()
+	if m != nil {
+		m(rs, req, &resp)
+	}
+	sc.Send(resp)
 }
 
 func (c *Cluster) sendExc(sc *ServerConn, req *Request, class string) {
@@ -908,7 +921,7 @@ func (c *Cluster) serveMulti(rs *RS, sc *ServerConn, req *Request, p *pb.MultiRe
 		return
 	}
 	c.Trace.Emit("resp", "conn", sc.ID, "id", int(req.CallID), "exc", "")
-	sc.Send(Response{CallID: req.CallID, Msg: resp, CellBlock: cb})
+	c.send(sc, req, Response{CallID: req.CallID, Msg: resp, CellBlock: cb})
 }
 
 // IsProbe recognises the establisher's probe: an exists-only Get.
